@@ -749,6 +749,43 @@ func directC04(tt *testing.T, tape *core.Tape, tier string, r *RunResult) {
 			}
 		}
 	}
+	// ---- live: the uplink fails after k bytes (sampled offsets): the handler's
+	// request reads break mid-call while the real client is running
+	if len(rec.reqBody) > 0 && rec.plan.HErr == nil {
+		step := len(rec.reqBody)/6 + 1
+		for k := 0; k <= len(rec.reqBody); k += step {
+			p := *rec.plan
+			p.K.UpCutAt = k
+			p.K.UpCutErr = errors.New("read tcp 10.0.0.2:443: connection reset by peer")
+			sc2 := *rec.sc
+			sc2.Calls = []*CallPlan{&p}
+			w, st, panics := subRun(&sc2, core.ReplayTape(nil))
+			deliveries++
+			r.Steps += w.S.Steps
+			where := fmt.Sprintf("uplink fails after %d of %d request bytes", k, len(rec.reqBody))
+			if len(panics) > 0 {
+				addV("uplink-failure/panic", where+": "+panics[0])
+				continue
+			}
+			if st != core.Done {
+				addV("uplink-failure/hang", where+": "+w.hangReport())
+				continue
+			}
+			o := w.Obs[0]
+			r.Probes["uplink_failures"]++
+			if !isPrefixOf(o.H.Recv, rec.handler.Msgs) {
+				addV("uplink-failure/messages-not-a-prefix", where)
+			}
+			if k < len(rec.reqBody) {
+				if o.FinalSet && o.Final == nil && (rec.plan.Kind == KClient || rec.plan.Kind == KBidi || len(o.H.Recv) == 0) {
+					addV("uplink-failure/success", where+": the call reported success although the handler never got the whole request")
+				}
+				if (rec.plan.Kind == KClient || rec.plan.Kind == KBidi) && o.H.RecvEndSet && (o.H.RecvEnd == nil || errors.Is(o.H.RecvEnd, io.EOF)) {
+					addV("uplink-failure/handler-saw-clean-end", where)
+				}
+			}
+		}
+	}
 	// ---- live: the client side of a still-open bidi call fails (its Receive
 	// rejects a response) while the handler is reading: the handler must not
 	// see a clean end of the request stream.
